@@ -1,0 +1,60 @@
+//go:build verif
+
+// Contracts for the fvc verification-condition generator in /verif (comment-only file; it adds no
+// code to the package and is only seen with -tags verif).
+
+package cors
+
+//@ props C19
+
+// A wildcard-subdomain entry "scheme://*.suffix" is stored as prefix "scheme://" and suffix ".suffix":
+// an origin matches when it starts with the prefix, ends with the suffix and is long enough for the
+// two not to overlap.
+//@ fn sdMatch(p string, s string, o string) bool = len(o) >= len(p) + len(s) && o[:len(p)] == p && o[len(o)-len(s):] == s
+
+//@ func (subdomain).match
+//@   pure
+//@   ensures iff-prefix-suffix-no-overlap: result <==> sdMatch(s.prefix, s.suffix, o)
+
+//@ fn allowFn(f ref, o string) bool
+//@ func Config.AllowOriginsFunc assumed pure
+//@   defines result == allowFn(fnvalue, arg0)
+//@ func Config.Next assumed pure
+
+//@ const ACAO "Access-Control-Allow-Origin"
+//@ const ACAC "Access-Control-Allow-Credentials"
+//@ const ACAM "Access-Control-Allow-Methods"
+//@ const ACAH "Access-Control-Allow-Headers"
+//@ const ACRM "Access-Control-Request-Method"
+
+//@ macro originLc(c) = lower(reqHeader(c, "Origin", epoch))
+//@ macro permitted(o) = exists(i, 0, len(allowOrigins), allowOrigins[i] == o) || exists(i, 0, len(allowSOrigins), sdMatch(allowSOrigins[i].prefix, allowSOrigins[i].suffix, o)) || (cfg.AllowOriginsFunc != nil && allowFn(cfg.AllowOriginsFunc, o))
+//@ macro bypassed() = called(Config.Next) && last(Config.Next)
+//@ macro preflight(c) = originLc(c) != "" && reqMethod(c, epoch) == "OPTIONS" && reqHeader(c, ACRM, epoch) != ""
+
+// The handler. Ghost response state (respHdr/respSet/varySet/nextCalls/sentStatus) is that of this activation.
+//@ func New$1
+//@   requires fresh-activation: nextCalls == 0 && sentStatus == 0 && forallS(k, !respSet[k]) && forallS(k, !varySet[k])
+//@   loop 1
+//@     invariant not-listed-so-far: forall(k, 0, rangeindex + 1, allowOrigins[k] != originHeader)
+//@   loop 2
+//@     invariant no-wildcard-so-far: forall(k, 0, rangeindex + 1, !sdMatch(allowSOrigins[k].prefix, allowSOrigins[k].suffix, originHeader))
+//@   atcall setSimpleHeaders: allow-origin-justified: allowOrigin == "" || (allowOrigin == "*" && allowAllOrigins) || (allowOrigin == originLc(c) && permitted(originLc(c)))
+//@   atcall setSimpleHeaders: permitted-is-allowed: allowAllOrigins ==> allowOrigin == "*"
+//@   atcall setSimpleHeaders: permitted-origin-not-rejected: !allowAllOrigins && permitted(originLc(c)) ==> allowOrigin == originLc(c)
+//@   ensures acao-only-permitted: respSet[ACAO] ==> (respHdr[ACAO] == "*" && allowAllOrigins) || (respHdr[ACAO] == originLc(c) && permitted(originLc(c)))
+//@   ensures credentials-never-with-star: respSet[ACAC] ==> respSet[ACAO] && respHdr[ACAO] != "*" && respHdr[ACAO] != ""
+//@   ensures no-origin-no-acao: originLc(c) == "" ==> !respSet[ACAO]
+//@   ensures vary-origin: !bypassed() && (!allowAllOrigins || (originLc(c) != "" && reqMethod(c, epoch) == "OPTIONS")) ==> varySet["Origin"]
+//@   ensures preflight-answered-204-without-handler: !bypassed() && preflight(c) ==> nextCalls == 0 && sentStatus == 204
+//@   ensures preflight-methods: !bypassed() && preflight(c) && len(cfg.AllowMethods) > 0 ==> respSet[ACAM] && respHdr[ACAM] == joined(cfg.AllowMethods, ", ", epoch)
+//@   ensures preflight-headers: !bypassed() && preflight(c) && len(cfg.AllowHeaders) > 0 ==> respSet[ACAH] && respHdr[ACAH] == joined(cfg.AllowHeaders, ", ", epoch)
+//@   ensures other-requests-reach-handler: bypassed() || !preflight(c) ==> nextCalls == 1 && sentStatus == 0
+
+//@ func setSimpleHeaders
+//@   modifies respHdr, respSet
+//@   ensures acao-is-allow-origin: respSet[ACAO] && !old(respSet[ACAO]) ==> respHdr[ACAO] == allowOrigin && allowOrigin != ""
+//@   ensures acao-set-when-allowed: allowOrigin != "" ==> respSet[ACAO] && respHdr[ACAO] == allowOrigin
+//@   ensures credentials-need-specific-origin: respSet[ACAC] && !old(respSet[ACAC]) ==> allowOrigin != "*" && allowOrigin != "" && respSet[ACAO] && respHdr[ACAO] == allowOrigin
+//@   ensures keeps-earlier: forallS(k, old(respSet[k]) && k != ACAO && k != ACAC && k != "Access-Control-Max-Age" && k != "Access-Control-Expose-Headers" ==> respSet[k] && respHdr[k] == old(respHdr[k]))
+//@   ensures adds-only-cors: forallS(k, respSet[k] && !old(respSet[k]) ==> k == ACAO || k == ACAC || k == "Access-Control-Max-Age" || k == "Access-Control-Expose-Headers")
